@@ -21,7 +21,7 @@ double vin_oldval ; sf_count_t vin_oldpos, vin_wc, vin_indx ; int vin_count ;
 static void %(fn)s (SF_PRIVATE *psf, const %(T)s *buffer, int count, sf_count_t indx)
 __CPROVER_requires (__CPROVER_is_fresh (psf, sizeof (SF_PRIVATE)) && psf->sf.channels == CH)
 __CPROVER_requires (__CPROVER_is_fresh (psf->peak_info, sizeof (PEAK_INFO) + CH * 16))
-__CPROVER_requires (CH <= count && count <= 65536 && count %% CH == 0 && count == vin_count)
+__CPROVER_requires (CH <= count && count <= (1 << 28) && count %% CH == 0 && count == vin_count)
 __CPROVER_requires (__CPROVER_is_fresh (buffer, (size_t) count * %(SZ)d))
 __CPROVER_requires (0 <= indx && indx <= (1LL << 40) && 0 <= psf->write_current && psf->write_current <= (1LL << 40) && indx == vin_indx && psf->write_current == vin_wc)
 __CPROVER_requires (0 <= g_ch && g_ch < CH && 0 <= g_fr && g_fr < count / CH)
